@@ -175,6 +175,11 @@ def run(ctx):
     for k in range(total):
         bias = [None, 'forks', 'train'][k % 3]
         spec = graphgen.generate(rng, maxnodes=rng.choice([3, 5, 8, 14]), bias=bias)
+        trained = sorted({t['group'] for t in spec['trainers']})
+        if trained and rng.random() < 0.3:
+            # a trained actor whose new state is empty: still dumped and committed at its position
+            ctx.count('hollow_trained_groups')
+            spec['nodes'][rng.choice(trained)]['hollow'] = True
         check_case(ctx, spec)
 
 
